@@ -67,6 +67,8 @@ def generate(rs: int, tier: str, index: int) -> dict:
         step["mutate"] = True  # history on the same object: query, overwrite the coefficients in place, query again
     if ch.chance(0.25):
         step["scribble"] = True
+    if ch.sub("results").chance(0.25):
+        step["scribble_results"] = True  # a caller overwrote what the queries returned; the polynomial itself was not touched
     if ch.sub("abort").chance(0.15):
         step["abort_first"] = ch.sub("abort").below(100000)  # the same query was made before and aborted part-way
     if kindc == "float" and kind in ("decompose", "lead", "queries") and size and ch.chance(0.2):
@@ -160,6 +162,9 @@ class Runner:
                             seams.interrupted_first(lambda: self.check(kind, step, p, names, els, nv, g, r, tag, numpoly), NUMPOLY_DIR, step["abort_first"], self.stats)
                             del self.violations[nviol:], self.events[nev:]
                         fp = self.check(kind, step, p, names, els, nv, g, r, tag, numpoly)
+                        if step.get("scribble_results") and p.size:
+                            self._scribble_results(p, g, r, numpoly)
+                            fp = fp + "|" + self.check(kind, step, p, names, els, nv, g, r, tag + "/after-results-overwritten", numpoly)
                         if step.get("mutate") and p.size:
                             # the same object again, after its coefficients were overwritten in place
                             vals = p.values
@@ -190,6 +195,38 @@ class Runner:
         if any(f != fps[0] for f in fps[1:]) and "violation" not in fps:
             self.violate("environment-independent", kind, sid, f"results differ between environments {self.plan['envs']}: {fps}"[:500])
         self.events.append([kind, fps[0]])
+
+    def _scribble_results(self, p: Any, g: bool, r: bool, numpoly: Any) -> None:
+        """Every array a query hands out is the caller's to overwrite (the queries return computed values)."""
+        queries = [lambda: numpoly.lead_exponent(p, graded=g, reverse=r), lambda: numpoly.lead_coefficient(p, graded=g, reverse=r),
+                   lambda: numpoly.sortable_proxy(p, graded=g, reverse=r), lambda: numpoly.tonumpy(p), lambda: p.tonumpy(),
+                   lambda: numpoly.decompose(p), lambda: p.todict(), lambda: numpoly.lead_coefficient(p), lambda: numpoly.lead_exponent(p)]
+        results = []
+        for query in queries:
+            try:
+                results.append(query())
+            except Exception:  # noqa: BLE001
+                pass
+
+        def destroy(res: Any) -> None:
+            if isinstance(res, numpoly.ndpoly):
+                raw = numpy.ndarray.view(res, numpy.ndarray)
+                if raw.flags.writeable and raw.size:
+                    for key in raw.dtype.names or ():
+                        raw[key][...] = 7
+            elif isinstance(res, numpy.ndarray):
+                if res.flags.writeable and res.size and res.dtype.kind in "biufc":
+                    res[...] = 7
+            elif isinstance(res, dict):
+                for v in res.values():
+                    destroy(v)
+            elif isinstance(res, (list, tuple)):
+                for v in res:
+                    destroy(v)
+
+        for res in results:
+            destroy(res)
+        self.bump("probe:query_results_overwritten")
 
     def check(self, kind: str, step: dict, p: Any, names: tuple, els: list, nv: int, g: bool, r: bool, tag: str, numpoly: Any) -> str:
         sid = step["id"]
@@ -409,7 +446,7 @@ def simplify(plan: dict):
         for env in plan["envs"][1:]:
             yield dict(plan, envs=[plan["envs"][0], env])
     step = plan["steps"][0]
-    for key in ("options", "abort_first", "scribble", "primer", "mutate"):
+    for key in ("options", "abort_first", "scribble", "scribble_results", "primer", "mutate"):
         if step.get(key) is not None and step.get(key) is not False:
             yield dict(plan, steps=[{k: v for k, v in step.items() if k != key}])
     for lit in model.lit_shrinks(step["p"]):
